@@ -2,6 +2,7 @@
   C06 — Tokenisation is lossless and follows the SPL lexical grammar.
   Property theorems only (helpers live in Lemmas/Lex.lean).
 -/
+import SplVerif.Lemmas.LexConform
 import SplVerif.Lemmas.Lex
 
 namespace Spl.C06
@@ -99,5 +100,24 @@ theorem symbol_order_ok : SymbolOrderOK = true := by decide
 /-- Table obligation: symbols never start like a word, a number, a character literal or
     whitespace, so "keywords only as whole words" and the literal classes are not shadowed. -/
 theorem spelling_start_ok : spellingStartOK = true := by decide
+
+end Spl.C06
+
+namespace Spl.C06
+
+/-- **C06, conformance part.**  On every text that the independently written maximal-munch
+    specification accepts (`Spec/LexSpec.lean`: at every token start all lexeme classes propose a
+    match, the longest wins, a word is a keyword only as a whole word; whitespace is skipped;
+    texts containing a malformed literal or a character no lexeme starts with are outside it), the
+    model of `lexer::lex` returns exactly the specification's token sequence — same types and
+    values, same byte ranges, no lexical errors, one final `Eof`.  No bound on the text. -/
+theorem lex_conforms (s : List Char) (ts : List Token) (h : LexSpec.lex s = some ts) :
+    lex s = .ok ts := by
+  have := Conform.go_conforms (s.length + 1) s 0 ts h
+  rw [this]
+  simp [lex, lexGo_eq_lexL]
+
+/-- Non-vacuity: the specification accepts a text with every token class. -/
+example : (LexSpec.lex "if x1 <= 0x1F // c\n'a'".toList).isSome = true := by decide
 
 end Spl.C06
